@@ -568,7 +568,7 @@ class SymBytes(object):
     def __getitem__(self, i):
         if isinstance(i, slice):
             if i.step is not None and i.step != 1:
-                raise NotImplementedError('extended slice')
+                raise tm.Unsupported('extended slice of symbolic bytes')
             return SymBytes.of(self.d[slice(self._sx(i.start, 0), self._sx(i.stop, None))])
         try:
             return self.d[self._ix(i)]
@@ -577,7 +577,7 @@ class SymBytes(object):
 
     def __setitem__(self, i, v):
         if isinstance(i, slice):
-            raise NotImplementedError('slice assignment')
+            raise tm.Unsupported('slice assignment on symbolic bytes')
         v = _byte_ok(v)
         try:
             self.d[self._ix(i)] = v
@@ -632,12 +632,19 @@ class SymBytes(object):
         enc = encoding.lower().replace('_', '-')
         if enc in ('utf-8', 'utf8'):
             return SymStr.from_utf8(self.d, errors)
+        if enc in ('utf-8-sig', 'utf8-sig'):
+            d = self.d
+            if len(d) >= 3 and d[0] == 0xEF and d[1] == 0xBB and d[2] == 0xBF:
+                d = d[3:]
+            return SymStr.from_utf8(d, errors)
         if enc == 'ascii':
             for x in self.d:
                 if not x < 128:
                     raise UnicodeDecodeError('ascii', b'', 0, 1, 'ordinal not in range(128)')
             return SymStr(self.d)
-        raise NotImplementedError(encoding)
+        if enc in ('latin-1', 'latin1', 'iso-8859-1'):
+            return SymStr(self.d)
+        raise tm.Unsupported('decode(%r) on symbolic bytes' % encoding)
 
     def copy(self):
         return SymBytes.of(self.d)
@@ -783,7 +790,7 @@ class SymStr(object):
                 else:
                     raise UnicodeEncodeError('ascii', '', 0, 1, 'ordinal not in range(128)')
             return out
-        raise NotImplementedError(encoding)
+        raise tm.Unsupported('encode(%r) on a symbolic string' % encoding)
 
     @staticmethod
     def from_utf8(b, errors='strict'):
